@@ -20,7 +20,8 @@ RULE = (
     "(b) Hypothesis rich running orders with any subset of the optional data per story/item; (c) "
     "Hypothesis histories (states reached by inserting / appending / replacing / re-sending stories "
     "with and without timing, deleting and moving).  Oracle: every documented accessor of "
-    "RunningOrder (14), Story (10) and Item (7) returns without raising; story IDs, slugs, item IDs, "
+    "RunningOrder (14), Story (10) and Item (7) returns without raising - on the running order and on the "
+    "carried Story / Item objects that the merged MESSAGE object exposes (stories, items, the re-sent story); story IDs, slugs, item IDs, "
     "item slug/type/object_id/mos_id/note and the per-story duration equal direct ElementTree reads of "
     "ro.xml, in document order; absent optional data gives None.  Non-trivial = some but not all "
     "stories carry a duration, or the state is the result of a merge.")
@@ -113,10 +114,56 @@ def _classes(ro_xml):
     return cl
 
 
+def check_message_objects(mo):
+    """Story / Item objects exposed by a message object: every accessor returns without
+    raising, IDs / slugs / item fields agree with the element they wrap."""
+    from checks.c20 import ACCESS
+    fails = []
+    kind = type(mo).__name__
+    for role, name in sorted(ACCESS.get(kind, {}).items()):
+        # only elements the message CARRIES are stories / items with content; target and
+        # source accessors hand out reference stubs (an ID, no content) - C20's business
+        if not (role == 'payload' or (kind == 'StorySend' and role == 'story')):
+            continue
+        ok, v = call(mo, name, fails, PROP, kind)
+        if not ok or v is None:
+            continue
+        for obj in (list(v) if isinstance(v, (list, tuple)) else [v]):
+            is_story = type(obj).__name__ == 'Story'
+            vals = {}
+            for acc in (access.STORY_ACCESSORS if is_story else access.ITEM_ACCESSORS):
+                ok2, val = call(obj, acc, fails, PROP, f'{kind}.{name}->{type(obj).__name__}')
+                if ok2:
+                    vals[acc] = val
+            x = vals.get('xml')
+            if x is None:
+                continue
+            if is_story:
+                if vals.get('slug', None) != access._text(x, 'storySlug'):
+                    fails.append(Failure(PROP, f'C15|{kind}.{name}|Story.slug|disagrees-with-xml',
+                                         f'{vals.get("slug")!r} vs {access._text(x, "storySlug")!r}'))
+                its = vals.get('items')
+                if its is not None and [i.id for i in its] != [access._text(i, 'itemID') for i in x if i.tag == 'item']:
+                    fails.append(Failure(PROP, f'C15|{kind}.{name}|Story.items|disagrees-with-xml', 'item IDs differ'))
+                if 'duration' in vals and not access.close(vals['duration'], access.x_duration(x)):
+                    fails.append(Failure(PROP, f'C15|{kind}.{name}|Story.duration|disagrees-with-xml',
+                                         f'{vals["duration"]!r} vs {access.x_duration(x)!r}'))
+            else:
+                for acc, exp in (('slug', access._text(x, 'itemSlug')), ('type', access._text(x, 'objType')),
+                                 ('object_id', access._text(x, 'objID')), ('mos_id', access._text(x, 'mosID')),
+                                 ('note', access.x_note(x))):
+                    if acc in vals and vals[acc] != exp:
+                        fails.append(Failure(PROP, f'C15|{kind}.{name}|Item.{acc}|disagrees-with-xml', f'{vals[acc]!r} vs {exp!r}'))
+    return fails
+
+
 def judge(ev):
     if ev.obs.ro is None:
         return []
-    return check(ev.obs.ro)
+    fails = check(ev.obs.ro)
+    if ev.obs.msg is not None:
+        fails += check_message_objects(ev.obs.msg)
+    return fails
 
 
 def record(col, ev):
